@@ -17,7 +17,7 @@ structure JFunc where
 structure JMeth where
   name : String
   qualified : String
-  definedHere : Bool
+  definer : Option Nat
   isCoroutine : Bool
   deriving FromJson
 
@@ -57,7 +57,7 @@ def JCls.toModel (c : JCls) : Cls :=
   { id := c.id, module := c.module.toList, qualname := c.qualname.toList, isAbstract := c.isAbstract,
     isEnum := c.isEnum, enumNames := c.enumNames,
     methods := c.methods.map (fun m => { name := m.name.toList, qualified := m.qualified.toList,
-                                         definedHere := m.definedHere, isCoroutine := m.isCoroutine }),
+                                         definer := m.definer, isCoroutine := m.isCoroutine }),
     bases := c.bases }
 
 def JMod.toModel (m : JMod) : Mod :=
